@@ -41,7 +41,33 @@ def make_comp(ns, c):
     kw = copy.deepcopy(c["args"])
     if c.get("limits") is not None:
         kw["limits"] = copy.deepcopy(c["limits"])
+    if c.get("via_toml"):
+        # the component is read from a parameter file (C13: indistinguishable from the constructor call)
+        import os
+        import tempfile
+
+        import toml
+
+        doc = {TOML_SECTION[c["kind"]]: {k: v for k, v in copy.deepcopy(c["args"]).items() if v is not None}}
+        if c["kind"] == "Rectifier":
+            doc["rectifier"].setdefault("vdrop", 0.0)  # mandatory in the file; 0.0 is the constructor's default
+        if c.get("limits") is not None:
+            doc["limits"] = copy.deepcopy(c["limits"])
+        d = tempfile.mkdtemp(prefix="slmon-toml-")
+        try:
+            fn = os.path.join(d, "c.toml")
+            with open(fn, "w") as f:
+                f.write(toml.dumps(doc))
+            return ns.KINDS[c["kind"]].from_file(c["name"], fname=fn)
+        finally:
+            import shutil
+
+            shutil.rmtree(d, ignore_errors=True)
     return ns.KINDS[c["kind"]](c["name"], **kw)
+
+
+TOML_SECTION = {"Source": "source", "PLoad": "pload", "ILoad": "iload", "RLoad": "rload", "RLoss": "rloss", "VLoss": "vloss",
+                "Converter": "converter", "LinReg": "linreg", "PSwitch": "pswitch", "PMux": "pmux", "Rectifier": "rectifier"}
 
 
 def parent_ref(spec, c):
